@@ -122,7 +122,7 @@ def _px(value):
 
 def node_wire(box, enc):
     """A text box / inline box of the tree before layout as the model's `Node`:
-    (t text) | (b left-spacing right-spacing has-decoration (children))."""
+    (t text) | (b left-spacing right-spacing has-decoration (children)) | (f node)."""
     from weasyprint.formatting_structure import boxes
     if isinstance(box, boxes.TextBox):
         return ['t', enc(box.text)]
@@ -134,7 +134,9 @@ def node_wire(box, enc):
     deco = any(
         _px(style[f'margin_{side}']) or _px(style[f'border_{side}_width']) or _px(style[f'padding_{side}'])
         for side in ('top', 'right', 'bottom', 'left'))
-    return ['b', left, right, bool(deco), [node_wire(child, enc) for child in box.children]]
+    node = ['b', left, right, bool(deco), [node_wire(child, enc) for child in box.children]]
+    # `trailing_collapsible_space` (set by build.inline_in_block, read by split_inline_box): the node, flagged
+    return ['f', node] if box.trailing_collapsible_space else node
 
 
 def frag_wire(box, enc, snap):
